@@ -1,11 +1,17 @@
 (* C12 — a local server sees calls in order, within its concurrency cap, until shutdown.
    Statements only; each is closed by [exact] of a lemma proved in coq/Server/*.v.
    All theorems quantify over every parameter record P (MaxConcurrentCalls, AnswerQueueSize,
-   every set of direct and pipelined calls and every caller order) and every reachable
-   configuration, i.e. every schedule of the threads of coq/Server/Server.v. *)
+   every set of direct and pipelined calls, every caller order, slow targets) and every reachable
+   configuration, i.e. every schedule of the threads of coq/Server/Server.v.
+   P also contains the code variant p_fixed (false = queueCaller.PipelineRecv before the basis fix).
+   Theorems without a premise on p_fixed hold for BOTH variants: they do not constrain the delivery
+   target. The target theorems (C12_delivery_target, C12_delivered_is_pipelined,
+   C12_basis_recorded) require p_fixed P = true and fail without it
+   (C12_delivery_target_refuted). *)
 From CV Require Import Server.Server Server.ServerProofs Server.ServerSteps Server.ServerStart Server.ServerTheorems
   Server.ServerOnce Server.ServerExamples Server.AqInv Server.AqTheorems Server.ServerOrder Server.OrderTheorems
-  Server.OnceTheorems Server.Live Server.NoStuck Server.Measure.
+  Server.OnceTheorems Server.Live Server.NoStuck Server.Measure Server.NoPanic Server.MeasureTheorems
+  Server.Target Server.TargetTheorems.
 From Coq Require Import List Arith Bool.
 Import ListNotations.
 
@@ -138,6 +144,40 @@ Example C12_mid_drain_blocked :
   aq_ph c 0 = ADrainWait 1 /\ ppc c 1 = PDelivered /\ ppc c 2 = PQueued /\ ppc c 3 = PWaitReady /\
   step ex_params_mid c (TPipe 3) = None /\ step ex_params_mid c (TImpl 0) = None.
 Proof. exact mid_drain_blocked. Qed.
+Print Assumptions C12_mid_drain_blocked.
+
+(* delivery TARGET (repaired code, p_fixed = true): every delivery ever recorded, in every history
+   and schedule, went to the answer the call was pipelined on - to a capability in the RESULT of
+   [on] (DRes on; the transform is applied there, it is opaque in the model), or, only when [on] is
+   itself a pipelined call that has been delivered and is still running, to [on]'s pipeline caller
+   (DFwd on) - never to another answer. (A call that is not delivered completes with ctx.Err, the
+   answer's error or the error of the queued call it was pipelined on: C12_queue_process_step,
+   C12_passthrough_after_queue.) The premise p_fixed = true is necessary:
+   C12_delivery_target_refuted is the same statement failing for the code before the fix. All other
+   theorems of this file hold for both variants - they do not speak about the target. *)
+Theorem C12_delivery_target : forall P c p d on, p_fixed P = true -> reachable P c ->
+  In (EvDeliver p d) (trace c) -> p_kind P p = Pipe on ->
+  d = DRes on \/ (d = DFwd on /\ p_kind P on <> Direct).
+Proof. exact delivery_target_lemma. Qed.
+Print Assumptions C12_delivery_target.
+
+Theorem C12_delivered_is_pipelined : forall P c p d, p_fixed P = true -> reachable P c ->
+  In (EvDeliver p d) (trace c) -> exists on, p_kind P p = Pipe on.
+Proof. exact delivered_is_pipelined_lemma. Qed.
+Print Assumptions C12_delivered_is_pipelined.
+
+(* the basis (index in aq.bases) recorded for a pipelined call: 0 and the answer itself for a call
+   on a direct call's answer; 1 + the queue position of [on], in [on]'s queue, otherwise *)
+Theorem C12_basis_recorded : forall P c p on, p_fixed P = true -> reachable P c ->
+  p_kind P p = Pipe on -> ppc c p <> PInit -> basis_ok P c p on.
+Proof. exact basis_recorded_lemma. Qed.
+Print Assumptions C12_basis_recorded.
+
+Theorem C12_delivery_target_refuted :
+  exists c p d on, reachable (ex_params false) c /\ In (EvDeliver p d) (trace c) /\
+                   p_kind (ex_params false) p = Pipe on /\ d <> DRes on /\ d <> DFwd on.
+Proof. exact delivery_target_refuted. Qed.
+Print Assumptions C12_delivery_target_refuted.
 
 (* liveness of the drain (queue-full blocking): a caller blocked on a full queue is released when
    the drain STARTS (close(aq.draining) precedes the delivery / rejection of queued calls); in reject
@@ -167,6 +207,7 @@ Example C12_full_queue_reject_releases :
   ppc c 1 = PQueued /\ ppc c 2 = PWaitDrain /\ ppc c 3 = PWaitDrain /\ aq_ph c 0 = ADraining 0 /\
   step ex_params_full c (TPipe 2) <> None /\ step ex_params_full c (TPipe 3) <> None.
 Proof. exact full_queue_reject_releases. Qed.
+Print Assumptions C12_full_queue_reject_releases.
 
 (* no_stuck (deadlock freedom), for every policy with MaxConcurrentCalls >= 1 (New guarantees it):
    in every reachable configuration in which some thread has begun and not finished (a start
@@ -187,22 +228,29 @@ Theorem C12_app_can_move : forall P c, app_pending c ->
 Proof. exact app_can_move_lemma. Qed.
 Print Assumptions C12_app_can_move.
 
-(* termination measures: each thread's own steps strictly decrease its measure (the panic outcome
-   is excluded by hypothesis here) *)
-Theorem C12_impl_measure : forall P c x c', invA P c -> step P c (TImpl x) = Some c' ->
+(* no Go panic: srv.ongoing[-1] after the full wake-up, close of the closed drain channel, a second
+   Shutdown (excluded: Shutdown is one thread), a nil bases[b].recv are unreachable - for both code
+   variants *)
+Theorem C12_no_panic : forall P c, reachable P c -> panicked c = false.
+Proof. exact reachable_nopanic. Qed.
+Print Assumptions C12_no_panic.
+
+(* termination measures: in every reachable configuration each thread's own steps strictly decrease
+   its measure *)
+Theorem C12_impl_measure : forall P c x c', reachable P c -> step P c (TImpl x) = Some c' ->
   impl_measure c' x < impl_measure c x.
-Proof. exact impl_measure_lemma. Qed.
+Proof. exact impl_measure_reach. Qed.
 Print Assumptions C12_impl_measure.
 
-Theorem C12_pipe_measure : forall P c p c', panicked c' = false ->
+Theorem C12_pipe_measure : forall P c p c', reachable P c ->
   (step P c (TPipe p) = Some c' \/ step P c (TPipeCtx p) = Some c') ->
   pipe_measure c' p < pipe_measure c p.
-Proof. exact pipe_measure_lemma. Qed.
+Proof. exact pipe_measure_reach. Qed.
 Print Assumptions C12_pipe_measure.
 
-Theorem C12_shutdown_measure : forall P c c', panicked c' = false -> step P c TShutdown = Some c' ->
+Theorem C12_shutdown_measure : forall P c c', reachable P c -> step P c TShutdown = Some c' ->
   shut_measure c' < shut_measure c.
-Proof. exact shut_measure_lemma. Qed.
+Proof. exact shut_measure_reach. Qed.
 Print Assumptions C12_shutdown_measure.
 
 (* partial: Server.start has a wait loop on the gate. Every own step decreases the measure except a
@@ -211,12 +259,12 @@ Print Assumptions C12_shutdown_measure.
    re-waits (each call takes the gate at most once, so it is bounded by the number of competing
    calls; under an unfair scheduler with unboundedly many competing callers a waiter can starve -
    this is the behaviour of the Go code, which wakes all waiters and lets them race for srv.mu). *)
-Theorem C12_start_measure_partial : forall P c x c', panicked c' = false ->
+Theorem C12_start_measure_partial : forall P c x c', reachable P c ->
   (step P c (TStart x) = Some c' \/ step P c (TStartCtx x) = Some c') ->
   start_measure c' x < start_measure c x
   \/ (exists h h', spc c x = SWaitGate h /\ spc c' x = SWaitGate h' /\
                    gate_rel c h = true /\ starting c = Some h').
-Proof. exact start_measure_lemma. Qed.
+Proof. exact start_measure_reach. Qed.
 Print Assumptions C12_start_measure_partial.
 
 (* non-vacuity: the cap is reached, Shutdown waits for a running call; and the pre-fix variant of
@@ -225,14 +273,17 @@ Example C12_cap_reached :
   let c := run ex_params2 (init ex_params2) ex_sched2 in
   (in_impl (ipc c 0) && in_impl (ipc c 1) = true) /\ spc c 2 = SWaitFull /\ count_slots (ongoing c) = 2.
 Proof. exact cap_reached. Qed.
+Print Assumptions C12_cap_reached.
 
 Example C12_basis_refuted :
   hd_error (trace (run (ex_params false) (init (ex_params false)) ex_sched)) = Some (EvDeliver 2 (DRes 0)).
 Proof. exact basis_refuted. Qed.
+Print Assumptions C12_basis_refuted.
 
 Example C12_basis_fixed :
   hd_error (trace (run (ex_params true) (init (ex_params true)) ex_sched)) = Some (EvDeliver 2 (DFwd 1)).
 Proof. exact basis_fixed. Qed.
+Print Assumptions C12_basis_fixed.
 
 (* known finding (self-pipelining deadlock) on the model: the nested start of the delivery is
    blocked on full while the goroutine that would free the slot is the one executing it *)
@@ -241,3 +292,4 @@ Example C12_self_pipe_blocked :
   ipc c 0 = IDrain /\ ongoing c = [Some 0] /\ spc c 2 = SWaitFull /\ full c = Some 2 /\
   step ex_params_self c (TStart 2) = None /\ step ex_params_self c (TStartCtx 2) = None.
 Proof. exact self_pipe_blocked. Qed.
+Print Assumptions C12_self_pipe_blocked.
